@@ -26,7 +26,7 @@ import (
 var c12pieces = []string{
 	"{{matrix}}", "{{ matrix }}", "{{matrix.os}}", "{{\tmatrix.os\n}}", "{{matrix.os.x}}", "{{matrix.nope}}", "{{matrix.arch.v-1_x}}",
 	"{{matrix.}}", "{matrix}", "{{ matrixx }}", "{{matrix .os}}", "{{Matrix}}", "plain", "{{matrix..arch}}", "{{matrix..}}",
-	"{{", "}}", "{", "{{matrix", "matrix.os}}", "{{ matrix.os }} ", "{{matrix.os }}x", "{{matrix.-}}", "{{matrix.os}matrix}}",
+	"{{", "}}", "{", "{{matrix", "matrix.os}}", "{{ matrix.os }} ", "{{matrix.os }}x", "{{matrix.-}}", "{{matrix.os}matrix}}", "{{matrix.arch}}",
 }
 
 func c12isDim(c byte) bool {
@@ -100,6 +100,7 @@ var c12perms = []c12perm{
 	{"token-values", map[string]string{"os": "{{matrix.arch}}", "arch": "{{matrix.os}}"}},
 	{"dot-leading", map[string]string{".arch": "dotval", "arch": "plainarch", "os": "{{matrix}}"}},
 	{"dash", map[string]string{"-": "dash", ".": "dot", "os.x": "osx"}},
+	{"self-reference", map[string]string{"os": "<{{matrix.os}}>", "arch": "{{matrix.os}}{{matrix.arch}}"}},
 }
 
 // positions joined with "+" carry the string at both places (a key and a value of one mapping)
@@ -318,9 +319,9 @@ func c12run(w *report.W) {
 			for _, perm := range c12perms {
 				for _, rep := range []string{"", "parsed"} {
 					if rep == "parsed" && !w.Thorough() && pieces[s] > 2 {
-					continue // quick: the parsed representation for strings of <=2 pieces
-				}
-				c := c12case{s, pos, perm, rep}
+						continue // quick: the parsed representation for strings of <=2 pieces
+					}
+					c := c12case{s, pos, perm, rep}
 					key := s + "\x00" + pos + "\x00" + perm.Name + "\x00" + rep
 					if !w.Take(key) {
 						continue
@@ -415,9 +416,9 @@ func c12run(w *report.W) {
 func init() {
 	register(&report.Check{
 		ID: "C12",
-		Rule: "every concatenation of <=3 (quick) / <=4 (thorough) pieces over a 24-piece alphabet (tokens with and without inner whitespace, dotted / dashed / dot-leading dimension names, unknown dimensions, " +
+		Rule: "every concatenation of <=3 (quick) / <=4 (thorough) pieces over a 25-piece alphabet (tokens with and without inner whitespace, dotted / dashed / dot-leading dimension names, unknown dimensions, " +
 			"near misses, brace fragments, plain text) x 23 positions of a command step (the same string at a key and a value of one mapping for three mappings; 12 single positions in scope: command, label, plugin source, config keys/values/nested, env values, unknown-field keys/values/nested/list; " +
-			"8 out of scope: env names, key, matrix setup/with/extra, signature value/field, cache) x 5 permutations (anonymous, named with . - _, token-shaped values, dot-leading names, dash/dot names) x 2 representations of the step (built by hand with plain Go maps; its JSON decoded by CommandStep.UnmarshalJSON, " +
+			"8 out of scope: env names, key, matrix setup/with/extra, signature value/field, cache) x 6 permutations (anonymous, named with . - _, token-shaped values that name each other, dot-leading names, dash/dot names, values that contain their own token) x 2 representations of the step (built by hand with plain Go maps; its JSON decoded by CommandStep.UnmarshalJSON, " +
 			"whose nested unknown mappings are ordered maps - quick: strings of <=2 pieces); " +
 			"InterpolateMatrixPermutation on the real code vs. a hand-written single-pass scanner mapped over the step's JSON before the call; unknown dimension in scope => error; empty permutation => deep " +
 			"snapshot unchanged; every iteration order of the library's map loops for one-piece strings at map-backed positions. Non-trivial = the string contains a token (replaced or unknown).",
